@@ -1974,6 +1974,8 @@ func (t *tScreen) HasKey(k Key) bool {
 }
 
 func (t *tScreen) SetSize(w, h int) {
+	t.Lock()
+	defer t.Unlock()
 	if t.setWinSize != "" {
 		t.TPuts(t.ti.TParm(t.setWinSize, w, h))
 	}
